@@ -436,6 +436,7 @@ def monitor(rp, script, out, tasks, crash, props):
     held, final, waiting = {}, {}, set()
     colo_hist = {}
     idle_pending = None
+    alone_pending = None
     unfit_pending = None
     prev_wp = set()
     for k, o in enumerate(out):
@@ -586,6 +587,29 @@ def monitor(rp, script, out, tasks, crash, props):
             if not any(st in ('FAILED', 'CANCELED', 'AGENT_EXECUTING_PENDING') and uid in unfit_pending for uid, st in o['events']):
                 viol.append(('C04', tag + 'unfitting-tasks-keep-waiting-on-idle-pilot',
                              'iteration %d: waiting %s, none fits the idle pilot, none was failed' % (k, sorted(unfit_pending))))
+        # ---- C04: a task waiting ALONE is started as soon as enough resources are released for it: judged by plain
+        #      arithmetic for plain requests on a pilot in scattered mode (any node may be used in part): the free
+        #      cores (and lfs, mem) of the nodes together hold its ranks -> the next pass over the wait pool starts it
+        if alone_pending is not None:
+            if alone_pending not in started_now and alone_pending in wp and alone_pending not in o['state']['cancel']:
+                viol.append(('C04', tag + 'task-waiting-alone-not-started-after-release',
+                             'iteration %d: task %d waits alone, the free resources after the releases of iteration %d hold all its ranks '
+                             '(ranks %d x %d cores), it is not started' % (k, alone_pending, k - 1, reqs[alone_pending]['ranks'], reqs[alone_pending]['cpr'])))
+        alone_pending = None
+        if len(wp) == 1 and not has_app and it['unsched'] and queue_empty and script['cfg'].get('scattered', True) \
+           and k + 1 < len(out) and not script['iters'][k + 1]['incoming'] and not script['iters'][k + 1].get('marks'):
+            u = next(iter(wp)); r = reqs[u]
+            envs_known = set(e for j in range(k + 1) for e in script['iters'][j]['envs'])
+            if not (r['gpr'] or r['rpn'] or r['colo'] is not None or r['excl'] or r['ranks'] < 1 or r['cpr'] < 1) \
+               and (r['env'] is None or r['env'] in envs_known) and u not in o['state']['cancel'] and not o['state']['tagged']:
+                room = 0
+                for n in o['state']['nodes']:
+                    kk = sum(1 for c in n[1] if c == 0) // r['cpr']
+                    if r['lfs']: kk = min(kk, (n[3] or 0) // r['lfs'])
+                    if r['mem']: kk = min(kk, (n[4] or 0) // r['mem'])
+                    room += kk
+                if room >= r['ranks']:
+                    alone_pending = u
         unfit_pending = None
         idle_pending = None
         if not held and wp and not has_app:
